@@ -3,7 +3,6 @@
    lib/load did (PrimFloat replays the IEEE-754 double operations of the Go code). *)
 From God Require Import Base.Prelude C09.RW C09.Spec C09.Model C09.Integ.
 From Coq Require Import Floats.
-From GodGen Require C09_Gen.
 Local Open Scope Z_scope.
 
 Definition t0 : Z := 3600000000000.       (* the drivers start the virtual clock at 1 h *)
@@ -57,7 +56,9 @@ Inductive case :=
 | SCase (window nbuckets thr : Z) (ops : list xsop) (panicked : bool) (rows : list srow)
 | ICase (http : bool) (guard : bool)              (* integration: RPC interceptor / HTTP handler (+RecoverHandler inside) *)
         (calls : list (bool * nat * Z))           (* scripted drop?, outcome / response shape, its argument *)
-        (rows : list (list Z)).                   (* driver rows, see the two verif_c09_driver_test.go *)
+        (rows : list (list Z))                    (* driver rows, see the two verif_c09_driver_test.go *)
+| TCase (ops : list nat)                          (* shedding statistics: 0 IncrTotal, 1 IncrPass, 2 IncrDrop, 3 reporting tick *)
+        (ticks : list (list Z)).                  (* per tick the logged [total; pass; drop] *)
 
 (* short names used by the case encoder *)
 Definition WAdd := Add.
@@ -177,11 +178,11 @@ Definition s_spec_step (n bd cpu_thr : Z) (p : sspec) (o : xsop) (row : srow) : 
   match o with
   | XAllow cpu =>
       let over := cpu_thr <=? cpu in
-      let recent := existsb (fun t => now - t <? C09_Gen.coolOfDuration) (p_over p) in
+      let recent := existsb (fun t => now - t <? cool_off) (p_over p) in
       let cap := cap_f (fold_left maxp_step (map (agg_x t0 bd (p_pl p)) (visible n true (J t0 bd now))) 1
                         * (second / bd))
                        (fold_left minrt_step (map (agg_x t0 bd (p_rl p)) (visible n true (J t0 bd now)))
-                                  C09_Gen.defaultMinRt) in
+                                  default_min_rt) in
       let adm := r_adm row =? 1 in
       let ok :=
         (* never rejects while CPU is below the threshold and no overload within the last second *)
@@ -270,12 +271,37 @@ Fixpoint i_spec (http guard : bool) (n_in n_fail n_drop : Z) (calls : list (bool
   | _, _ => false
   end.
 
+(* ---------- shedding statistics (lib/load/sheddingstat.go): every tick reports and resets ---------- *)
+Fixpoint t_run (tot pas drp : Z) (ops : list nat) : list (list Z) :=
+  match ops with
+  | [] => []
+  | 0%nat :: r => t_run (tot + 1) pas drp r
+  | 1%nat :: r => t_run tot (pas + 1) drp r
+  | 2%nat :: r => t_run tot pas (drp + 1) r
+  | _ :: r => [tot; pas; drp] :: t_run 0 0 0 r        (* reset(): SwapInt64(.., 0) of the three counters, :76-82 *)
+  end.
+
+(* stated on the observations: the reports partition the increments (each tick has exactly the increments since
+   the previous tick: nothing twice, nothing lost), hence pass + drop <= total per interval whenever the callers
+   count total first *)
+Fixpoint t_counts (k : nat) (ops : list nat) (acc : Z) (out : list Z) : list Z :=
+  match ops with
+  | [] => rev out
+  | o :: r => if Nat.eqb o 3 then t_counts k r 0 (acc :: out)
+              else t_counts k r (if Nat.eqb o k then acc + 1 else acc) out
+  end.
+Definition t_spec (ops : list nat) (ticks : list (list Z)) : bool :=
+  list_eqb Z.eqb (map (fun row => nth 0 row (-1)) ticks) (t_counts 0 ops 0 []) &&
+  list_eqb Z.eqb (map (fun row => nth 1 row (-1)) ticks) (t_counts 1 ops 0 []) &&
+  list_eqb Z.eqb (map (fun row => nth 2 row (-1)) ticks) (t_counts 2 ops 0 []).
+
 (* ---------- entry points ---------- *)
 Definition model_ok (c : case) : bool :=
   match c with
   | WCase n iv ign ops p rs fin => w_model_ok n iv ign ops p rs fin
   | SCase w nb cpu ops p rows => s_model_ok w nb cpu ops p rows
   | ICase http guard calls rows => i_run http guard (mkcnt 0 0 0 0) calls rows
+  | TCase ops ticks => list_eqb (list_eqb Z.eqb) (t_run 0 0 0 ops) ticks
   end.
 
 Definition spec_ok (c : case) : bool :=
@@ -283,4 +309,5 @@ Definition spec_ok (c : case) : bool :=
   | WCase n iv ign ops p rs fin => w_spec_ok n iv ign ops rs
   | SCase w nb cpu ops p rows => s_spec_ok w nb cpu ops p rows
   | ICase http guard calls rows => i_spec http guard 0 0 0 calls rows
+  | TCase ops ticks => t_spec ops ticks
   end.
